@@ -14,7 +14,7 @@ def ints(x, ok, scale=1.0):
     return r.astype(np.int64).tolist()
 
 
-def predict_case(cid, rng, big, edited=False):
+def predict_case(cid, rng, big, edited=False, nfix=None):
     from pybrops.model.gmod.DenseAdditiveLinearGenomicModel import DenseAdditiveLinearGenomicModel as ADD
     from pybrops.model.gmod.DenseAdditiveDominanceLinearGenomicModel import DenseAdditiveDominanceLinearGenomicModel as DOM
     from pybrops.popgen.gmat.DensePhasedGenotypeMatrix import DensePhasedGenotypeMatrix
@@ -26,9 +26,13 @@ def predict_case(cid, rng, big, edited=False):
     dom = rng.random() < 0.4
     # ploidy = number of phase planes of the phased matrix; heterozygosity indicators (dominance) are defined for diploids
     P = 2 if (dom or rng.random() < 0.7) else rng.choice([1, 3, 4, 4, 6])
+    if nfix:                                    # population sizes at which (1/m)*m is not 1.0 in floating point
+        n, P = nfix; p = rng.randrange(3, 6); dom = dom and P == 2
     ph = np.array([[[rng.randrange(2) for _ in range(p)] for _ in range(n)] for _ in range(P)], dtype="int8")
-    if rng.random() < 0.3:
+    if rng.random() < 0.3 or nfix:
         ph[:, :, 0] = rng.randrange(2)          # a monomorphic marker
+    if nfix:
+        ph[:, :, 1] = 1; ph[:, :, 2] = rng.randrange(2)
     if P > 2 and rng.random() < 0.5:
         ph[:2, :, :] = 0                        # the allele is carried on the later chromosome copies only
     Z = ph.sum(0).astype(int)
@@ -234,6 +238,8 @@ def run(ctx):
         allc.append(predict_case(len(allc) + 1, rng, big=True))
     for _ in range(60 if thorough else 24):
         allc.append(predict_case(len(allc) + 1, rng, big=rng.random() < 0.5, edited=True))
+    for nfix in ((49, 1), (49, 2), (49, 4), (98, 1), (103, 1), (103, 2), (107, 2), (161, 1)) + (((187, 1), (197, 1), (98, 2)) if thorough else ()):
+        allc.append(predict_case(len(allc) + 1, rng, big=True, nfix=nfix))
     for _ in range(60 if thorough else 20):
         allc.append(ridge_case(len(allc) + 1, rng))
     vias = ("fit_ndarray", "fit_bvmat_centred", "fit_bvmat_raw", "fit_bvmat_ref")
